@@ -776,7 +776,7 @@ func (repo *Repository) MarkHeaderInvalid(ctx context.Context, hash bitcoin.Hash
 
 	// Check if hash was previously accepted
 	branch, height := repo.branches.Find(hash)
-	if branch != nil {
+	if branch == nil {
 		return nil // not found
 	}
 
